@@ -15,6 +15,9 @@ from inscripta.biocantor.sequence import Sequence
 from inscripta.biocantor.sequence.alphabet import Alphabet
 
 TYPES = ["chromosome", "sequence_chunk", "contig", "region"]
+# a hierarchy without any sequence_chunk level (contig -> scaffold -> chromosome): interval objects built on its lowest level keep
+# that level's coordinates (no chunk lift happens) and must lift through the same composition as their location
+TYPES_NO_CHUNK = ["chromosome", "scaffold", "contig", "region"]
 _case = [0]
 
 
@@ -33,6 +36,7 @@ def build_hierarchy(spec):
         seqs.append(rm.seq_image(seqs[-1], pos, pl["strand"]))
     d = len(spec["placements"])
     A = Alphabet.NT_STRICT
+    TYPES = TYPES_NO_CHUNK if spec.get("no_chunk_level") else globals()["TYPES"]
     # Q[i]: Parent of level i carrying the placement of level i+1 on it, and its own parent chain
     chain = None
     for i in range(d + 1):
@@ -55,6 +59,7 @@ def compose_down(pos_list, strand, maps, strands, frm, to):
 
 def check_hierarchy(spec, ctx):
     d = len(spec["placements"])
+    TYPES = TYPES_NO_CHUNK if spec.get("no_chunk_level") else globals()["TYPES"]
     lowest, seqs, maps, strands, tag = build_hierarchy(spec)
     C = spec["child"]
     child = mkloc(C, lowest)
@@ -106,6 +111,37 @@ def check_hierarchy(spec, ctx):
                 child.lift_over_to_sequence(target_seq)
                 ctx.fail(clause + ":by_sequence_noncontiguous_accepted")
             except ValueError:
+                pass
+    # interval objects (features, transcripts) built on the lowest level lift like their location
+    if spec.get("no_chunk_level") and not rm.has_self_overlap(C["blocks"]) and all(b[1] > b[0] for b in C["blocks"]):
+        from inscripta.biocantor.gene.feature import FeatureInterval
+        from inscripta.biocantor.gene.transcript import TranscriptInterval
+        bl_ = rm.sorted_blocks(C["blocks"])
+        for cls_name, make in (("feature", lambda: FeatureInterval([b[0] for b in bl_], [b[1] for b in bl_], STRAND[C["strand"]], parent_or_seq_chunk_parent=lowest)),
+                               ("transcript", lambda: TranscriptInterval([b[0] for b in bl_], [b[1] for b in bl_], STRAND[C["strand"]], parent_or_seq_chunk_parent=lowest))):
+            try:
+                obj = make()
+            except BioCantorException as e:
+                ctx.refuse("interval_on_hierarchy_refused:" + type(e).__name__)
+                continue
+            ctx.label("interval_object_on_hierarchy")
+            ctx.eq(cls_name + ":spliced_sequence", str(obj.get_spliced_sequence()), cseq)
+            for target in range(d, -1, -1):
+                exp_pos, exp_strand = compose_down(cpos, C["strand"], maps, strands, d, target)
+                try:
+                    lifted = obj.lift_over_to_first_ancestor_of_type(TYPES[target])
+                except BioCantorException as e:
+                    ctx.fail("%s:lift_type[d=%d->%d]:raises" % (cls_name, d, target), repr(e)[:120])
+                    continue
+                clause = "%s:lift_type[d=%d->%d]" % (cls_name, d, target)
+                ctx.eq(clause + ":positions", rm.loc_positions(lifted), exp_pos)
+                ctx.eq(clause + ":strand", rm.loc_strand(lifted), exp_strand)
+                ctx.true(clause + ":parent", lifted.parent is not None and lifted.parent.sequence_type == TYPES[target], repr(lifted.parent)[:80])
+                ctx.eq(clause + ":sequence", str(lifted.extract_sequence()), cseq)
+            try:
+                r = obj.lift_over_to_first_ancestor_of_type("plasmid")
+                ctx.fail(cls_name + ":absent_type_answered", repr(r)[:80])
+            except NoSuchAncestorException:
                 pass
     # absent ancestors are refused
     ctx.label("no_ancestor")
@@ -264,7 +300,7 @@ def strat_hierarchy(draw, tier="quick"):
     cb = [[cuts[2 * i], cuts[2 * i + 1]] for i in range(kc)]
     child = {"blocks": cb, "strand": draw(st.sampled_from(["+", "-"])), "order": list(draw(st.permutations(range(kc)))), "shift": 0,
              "compound": draw(st.booleans())}
-    return {"genome": G, "placements": placements, "child": child}
+    return {"genome": G, "placements": placements, "child": child, "no_chunk_level": draw(st.integers(0, 2)) == 0}
 
 
 @st.composite
@@ -292,7 +328,7 @@ PROP = Prop(
     pid="C04",
     legs=[
         Leg("hierarchy", check_hierarchy, strategy=strat_hierarchy, n_quick=700, n_thorough=6000, shards_quick=4,
-            must_hit=["depth>=3", "two_minus_levels", "block_split_across_parent_blocks", "no_ancestor", "lift_by_sequence"],
+            must_hit=["depth>=3", "two_minus_levels", "block_split_across_parent_blocks", "no_ancestor", "lift_by_sequence", "interval_object_on_hierarchy"],
             rule="hierarchies of depth 1..3 (4 levels incl. root), each level placed on its parent by a 1..3-block location on either strand, sequences extracted from the root; child locations of 1..3 blocks; every ancestor as target by type and by sequence identity; absent ancestors"),
         Leg("chunk", check_chunk, strategy=strat_chunk, n_quick=1200, n_thorough=10000, shards_quick=4,
             must_hit=["chunk_cuts_block", "chunk_misses", "chunk_to_chunk", "minus", "minus_chunk", "chunk_to_chunk_with_minus_chunk", "overlapping_blocks"],
